@@ -29,6 +29,51 @@ def expected_position(kinds):
     return i
 
 
+NS_PROBE = '''
+def outer(rows):
+    def inner(a, strict=True | False, *, kw=True & True):
+        return [r for r in rows if (True ^ False)], (lambda: True | True), {k: (False | True) for k in rows}
+    class K:
+        flag = True | False
+        def meth(self, d=(True & True)):
+            return True | False
+    @deco(True | False)
+    def dec(): pass
+    return inner, (True | False)
+x = [True | False for y in z]
+w = 1 + 2
+'''
+
+
+def created_namespaces(model, rep):
+    """Hoisting places an alias by the namespace recorded on every use of the constant. Constants can also be *created* by the folding transform
+    (True | False -> True): the node it creates must carry the namespace of the place it stands in - that is, what the namespace mapper would
+    assign if it were run on the transformed tree."""
+    from .c07 import fold_run, obj_to_ast
+    from .c03 import ns_path, MAPPER
+    from ..absprint import to_obj
+    from ..absnodes import set_parents, walk, std_hooks
+    tree, out = fold_run(model, NS_PROBE)
+    if isinstance(out, tuple):
+        raise AnalysisError('UNDECIDED: FoldConstants on the namespace probe raises %s' % (out[1],))
+    got = [(o.cls, o.attrs.get('value'), ns_path(o.attrs.get('namespace')) if isinstance(o.attrs.get('namespace'), Obj) else None) for o in walk(out) if o.cls == 'Constant']
+    fresh = to_obj(ast.fix_missing_locations(obj_to_ast(out)))
+    set_parents(fresh)
+    I = Interp(model, MAPPER, std_hooks(), max_depth=400)
+    res = I.explore(lambda: I.call_function(MAPPER + '.add_namespace', [fresh]))
+    if len(res) != 1 or res[0][0][0] != 'return':
+        raise AnalysisError('UNDECIDED: add_namespace on the folded probe -> %s' % [r[0] for r in res][:2])
+    want = [(o.cls, o.attrs.get('value'), ns_path(o.attrs.get('namespace')) if isinstance(o.attrs.get('namespace'), Obj) else None) for o in walk(fresh) if o.cls == 'Constant']
+    if len(got) != len(want) or len(got) < 10:
+        raise AnalysisError('namespace probe: %d constants after folding, %d in the re-mapped tree' % (len(got), len(want)))
+    n_folded = sum(1 for g in got if isinstance(g[1], bool))
+    if n_folded < 8:
+        raise AnalysisError('namespace probe: only %d boolean constants after folding - the probe expressions were not folded' % n_folded)
+    bad = ['%r stands in %s but carries the namespace %s' % (g[1], '/'.join(w[2]) if w[2] else 'module', '/'.join(g[2]) if g[2] else ('module' if g[2] == () else 'none')) for g, w in zip(got, want) if g[2] != w[2]]
+    rep.check(not bad, 'C06.NS', 'src/python_minifier/transforms/constant_folding.py', 'constants created by folding inside defaults, decorators, comprehensions, lambdas, class bodies (%d)' % n_folded,
+              'each carries the namespace of the place it stands in', 'a folded constant is attributed to the wrong scope, hoisting it places or reserves the alias there: ' + '; '.join(bad[:3]), key='C06.NS|fold', cells=len(got))
+
+
 def run(model, rep):
     rep.explanation = ('(INS) util.insert is abstractly evaluated on every statement list up to length 3 over six statement kinds (docstring, __future__ import, other '
                        'import, number statement, bytes statement, assignment): the new node must appear exactly once, directly after the maximal prefix of string '
@@ -37,8 +82,9 @@ def run(model, rep):
                        'original constant node and every use becomes Name(new, Load). (EXCL) the collector is evaluated on a literal statement, an f-string, a match '
                        'case and a __slots__ assignment and must not register them. (PLACE) place_bindings is evaluated on a scope tree (module > f > {g, h, class > lambda}) '
                        'and must choose the deepest function/module namespace common to all uses. Not decided: uniqueness of the alias name; that the alias is never rebound.')
-    for r, t in [('C06.INS', 'insert() position, enumerated'), ('C06.KEY', 'type-aware equality of hoisting keys, enumerated'), ('C06.VAL', 'value node identity and Store/Load contexts'),
-                 ('C06.EXCL', 'literals that must not be collected'), ('C06.PLACE', 'deepest common function namespace, enumerated')]:
+    for r, t in [('C06.INS', 'insert() position, enumerated'), ('C06.KEY', 'type-aware equality of hoisting keys, enumerated'), ('C06.VAL', 'hoisting end to end: putting the aliased constants back gives the original program; aliases assigned once, at the top of a function / module body'),
+                 ('C06.EXCL', 'literals that must not be collected'), ('C06.PLACE', 'deepest common function namespace, enumerated'),
+                 ('C06.NS', 'constants created by earlier transforms carry the namespace of the place they stand in')]:
         rep.rule(r, t)
     # ---------------- INS
     ins = model.func(UTIL + '.insert')
@@ -50,7 +96,7 @@ def run(model, rep):
             suite = [kinds[k]() for k in combo]
             new = Obj('Assign', targets=[Obj('Name', id='A')], value=Obj('Constant', value='s'))
             I = Interp(model, UTIL, {})
-            res = I.explore(lambda: I.call_function(ins.qual, [suite, new]))
+            res = I.explore(lambda: I.materialise(I.call_function(ins.qual, [suite, new])))
             cells += 1
             for (o, ev, unk) in res:
                 if o[0] != 'return' or o[1] is TOP or not isinstance(o[1], list):
@@ -80,7 +126,7 @@ def run(model, rep):
                           'a statement is added to a body without going through insert(): it can land before a docstring or __future__ import', key='C06.INS|site|' + q)
             if isinstance(n_, ast.Call) and isinstance(n_.func, ast.Attribute) and n_.func.attr in ('insert', 'append') and src(n_.func.value).endswith('.body'):
                 rep.violation('C06.INS', fi.loc(n_), src(n_)[:80], 'statement added to a body directly', key='C06.INS|direct|' + q)
-    rep.floor('C06.INS', 4)
+    rep.floor('C06.INS', 1)   # where the inserted assignment lands in a real body is decided by C06.VAL (de-hoisting)
 
     # ---------------- KEY
     ex = [True, False, None, 1, 0, 1.0, 0.0, 'a', b'a', '', b'', 'True']
@@ -122,38 +168,9 @@ def run(model, rep):
     rep.check(keyed, 'C06.KEY', gb.loc(), 'self._hoisted[HoistedValue(value)]', 'keyed by the type-aware wrapper of the literal value', 'the table of hoisted literals is not keyed by the type-aware wrapper', key='C06.KEY|table')
     rep.floor('C06.KEY', 3)
 
-    # ---------------- VAL
-    hr = model.func(RL + '.HoistedBinding.rename')
-    newp = hr.positional[0]
-    assigns = [c for c in calls(hr.node) if src(c.func).endswith('.Assign')]
-    ok = False
-    why = 'no Assign constructed'
-    for c in assigns:
-        tg = kwarg(c, 'targets', 0)
-        val = kwarg(c, 'value', 1)
-        one = isinstance(tg, ast.List) and len(tg.elts) == 1 and isinstance(tg.elts[0], ast.Call) and src(tg.elts[0].func).endswith('.Name')
-        nm = one and src(kwarg(tg.elts[0], 'id', 0)) == newp and src(kwarg(tg.elts[0], 'ctx', 1)).endswith('Store()')
-        v_ok = src(val) == 'self._value_node'
-        ok = bool(one and nm and v_ok)
-        why = 'targets=%s value=%s' % (src(tg), src(val))
-    rep.check(ok, 'C06.VAL', hr.loc(), 'inserted Assign: ' + why, 'binds Name(new_name, Store) to the original constant node', 'the inserted assignment does not bind the new name to the original constant node: ' + why, key='C06.VAL|assign')
-    init = model.func(RL + '.HoistedBinding.__init__')
-    st = [n_ for n_ in walk_own(init.node) if isinstance(n_, ast.Assign) and src(n_.targets[0]) == 'self._value_node']
-    others = [(q, n_) for q, f in model.funcs.items() for n_ in walk_own(f.node) if isinstance(n_, ast.Assign) and any(isinstance(t, ast.Attribute) and t.attr == '_value_node' for t in n_.targets) and f is not init]
-    rep.check(len(st) == 1 and src(st[0].value) == init.positional[0] and not others, 'C06.VAL', init.loc(), 'self._value_node = constructor argument, written nowhere else', 'value node is the collected literal itself',
-              'the stored value node is not the collected literal (or is overwritten later)', key='C06.VAL|init')
-    ctor = [c for c in calls(gb.node) if src(c.func) == 'HoistedBinding']
-    rep.check(len(ctor) == 1 and ctor[0].args and src(ctor[0].args[0]) == gb.positional[1], 'C06.VAL', gb.loc(), 'HoistedBinding(node)', 'constructed from the visited literal node',
-              'the binding is not constructed from the visited literal node', key='C06.VAL|ctor')
-    reps = [c for c in calls(hr.node) if src(c.func) == 'replace']
-    ok = False
-    for c in reps:
-        new = c.args[1] if len(c.args) > 1 else None
-        loop = model.parent(model.parent(c))
-        ok = isinstance(new, ast.Call) and src(new.func).endswith('.Name') and src(kwarg(new, 'id', 0)) == newp and src(kwarg(new, 'ctx', 1)).endswith('Load()') and \
-            isinstance(loop, ast.For) and src(loop.iter) in ('self.references', 'self._references') and src(c.args[0]) == src(loop.target)
-    rep.check(ok, 'C06.VAL', hr.loc(), 'every reference replaced by Name(new_name, Load)', 'loop over all references', 'uses are not all replaced by a load of the new name', key='C06.VAL|replace')
-    rep.floor('C06.VAL', 4)
+    # ---------------- VAL / E2E: the whole hoisting pipeline evaluated on probe modules, then de-hoisted by the checker (hoist_e2e)
+    from . import hoist_e2e
+    hoist_e2e.run(model, rep, 'C06.VAL')
 
     # ---------------- EXCL (abstract evaluation of the collector)
     excl(model, rep)
@@ -277,4 +294,5 @@ def place(model, rep):
         rep.check(ok, 'C06.PLACE', pb.loc(), 'uses in %s -> placed in %s' % (cname, [p.attrs.get('name', p.cls) for p in placed]), 'deepest function/module namespace common to all uses (%s)' % want.attrs.get('name', want.cls),
                   'binding for uses in %s is placed in %s (insertion namespace %s), expected %s: the assignment would not dominate every use or lands in a class/comprehension body' %
                   (cname, [p.attrs.get('name', p.cls) for p in placed], getattr(got_local, 'cls', got_local), want.attrs.get('name', want.cls)), key='C06.PLACE|' + cname)
+    created_namespaces(model, rep)
     rep.floor('C06.PLACE', 9)
